@@ -1,4 +1,5 @@
 import EupsModel.Model.Db
+import EupsModel.Model.DbFile
 /-! Model of the persisted product cache (`ProductStack.fromCache / _tryCache / cacheIsUpToDate / persist`,
 `Database.isNewerThan`, `Eups.__init__` l.309-313) over `Model/Db.lean`.
 
@@ -227,5 +228,17 @@ def runHistory (w : World) (h : List WCmd) : World := h.foldl step w
 
 /-- what a fresh process of user `u` and flavor `self` sees through the cache -/
 def viaCache (w : World) (u : User) (self : Flav) : Spec := (load w u self).1
+
+/-! ## the same history on the files -/
+
+/-- one command of a history on the record files: the effects the command performs (`StepResult.trace`: cut by a
+crash, the last one reduced to its `Database` part — which is all `applyF` looks at) applied to the files by
+`DbFile.applyF`; the decisions of the command are the ones of `stepG` -/
+def stepF (Fw : DbFile.FileDb × World) (c : WCmd) : DbFile.FileDb × World :=
+  let r := stepG true Fw.2 c
+  (r.trace.foldl (fun F e => DbFile.applyF e F) Fw.1, r.w)
+
+def runHistoryF (nst : Nat) (dirs : List DirEnt) (h : List WCmd) : DbFile.FileDb × World :=
+  h.foldl stepF (DbFile.FileDb.empty, World.init nst dirs)
 
 end EupsModel.Cache
